@@ -65,11 +65,11 @@ def random_history(rng, maxlen):
     for _ in range(n):
         r = rng.random()
         if r < 0.25:
-            h.append(["act", rng.randrange(len(ADDS))])
+            h.append(["acts" if rng.random() < 0.35 else "act", rng.randrange(len(ADDS))])
         elif r < 0.37:
             h.append("deact")
         elif r < 0.55:
-            h.append(["cons", rng.randrange(len(ADDS))])
+            h.append(["conss" if rng.random() < 0.35 else "cons", rng.randrange(len(ADDS))])
             ninst += 1
         elif r < 0.70:
             h.append("pall")
@@ -89,8 +89,10 @@ def gsx(g):
 def op_sx(op):
     if isinstance(op, str):
         return op
-    if op[0] in ("act", "cons"):
-        return [op[0], [gsx(g) for g in pairs(op[1])]]
+    if op[0] in ("act", "cons", "acts", "conss"):
+        # "acts" / "conss": the caller hands over ONE list object that it edits in place between calls --
+        # to the model (and to the property) that is the same as a fresh list with those contents
+        return [{"acts": "act", "conss": "cons"}.get(op[0], op[0]), [gsx(g) for g in pairs(op[1])]]
     if op[0] == "probe":
         return ["probe", gsx(VOCAB[op[1]])]
     if op[0] == "iprobe":
@@ -137,6 +139,7 @@ def oracle(hist, steps, base):
         if line.startswith("!"):
             return (f"operation {op} raised {line[1:]}", i)
         k = op if isinstance(op, str) else op[0]
+        k = {"acts": "act", "conss": "cons"}.get(k, k)
         if k == "act":
             cur = pairs(op[1])
         elif k == "deact":
@@ -197,6 +200,11 @@ def main(tier, seed):
         chk.prove()
     exh = enumerate_histories(maxlen)
     rnd = [random_history(chk.rng, 30) for _ in range(150 if quick else 3000)]
+    # targeted: ONE list object edited in place between activations / constructions
+    for a, b in ((1, 2), (2, 1), (3, 0), (1, 6)):
+        rnd.append([["acts", a], "pall", "deact", ["acts", b], "pall", "iall"])
+        rnd.append([["conss", a], ["conss", b], ["acts", a], "pall", "iall"])
+        rnd.append([["acts", a], ["acts", b], "pall", ["conss", a], "pall", "iall"])
     chk.stats["exhaustive_histories"] = len(exh)
     chk.stats["random_histories"] = len(rnd)
     bad = []
